@@ -9,26 +9,31 @@
 (***************************************************************************)
 EXTENDS Naturals, Sequences, TLC
 
-CONSTANTS PeekSize, MaxSent, MaxWrite, Bufs, Shorts
+CONSTANTS PeekSize, MaxSent, MaxWrite, Bufs, Shorts,
+          Glitches     \* subset of {"dataerr", "temperr", "eofdata"}: what io.Reader allows besides short reads
 
-VARIABLES nsent, wire, closed, made, peeked, np, delivered, eof, under, op
-vars == <<nsent, wire, closed, made, peeked, np, delivered, eof, under, op>>
-View == <<nsent, wire, closed, made, peeked, np, delivered, eof, under>>
+VARIABLES nsent, wire, closed, made, peeked, np, delivered, eof, under,
+          rg,       \* armed one-shot read glitch: "none", "dataerr" (bytes + timeout), "temperr" (error first)
+          eofd,     \* the last bytes come together with io.EOF
+          nglitch, op
+vars == <<nsent, wire, closed, made, peeked, np, delivered, eof, under, rg, eofd, nglitch, op>>
+View == <<nsent, wire, closed, made, peeked, np, delivered, eof, under, rg, eofd, nglitch>>
 
 Min(a, b) == IF a < b THEN a ELSE b
 Sent == [i \in 1..nsent |-> i]
 IsPrefix(s, t) == Len(s) <= Len(t) /\ \A i \in 1..Len(s) : s[i] = t[i]
 
 Init == /\ nsent = 0 /\ wire = <<>> /\ closed = FALSE /\ made = "no" /\ peeked = <<>> /\ np = 0
-        /\ delivered = <<>> /\ eof = FALSE /\ under = 0 /\ op = [name |-> "init"]
+        /\ delivered = <<>> /\ eof = FALSE /\ under = 0 /\ rg = "none" /\ eofd = FALSE /\ nglitch = 0
+        /\ op = [name |-> "init"]
 
 \* the remote end writes / closes
 Send(k) == /\ ~closed /\ nsent + k <= MaxSent
            /\ wire' = wire \o [i \in 1..k |-> nsent + i] /\ nsent' = nsent + k
            /\ op' = [name |-> "send", k |-> k]
-           /\ UNCHANGED <<closed, made, peeked, np, delivered, eof, under>>
+           /\ UNCHANGED <<closed, made, peeked, np, delivered, eof, under, rg, eofd, nglitch>>
 Close == /\ ~closed /\ closed' = TRUE /\ op' = [name |-> "close"]
-         /\ UNCHANGED <<nsent, wire, made, peeked, np, delivered, eof, under>>
+         /\ UNCHANGED <<nsent, wire, made, peeked, np, delivered, eof, under, rg, eofd, nglitch>>
 
 \* newWrappedSampledConn: io.ReadFull of PeekSize bytes
 Peek ==
@@ -39,40 +44,57 @@ Peek ==
      \/ /\ Len(wire) < PeekSize /\ closed
         /\ made' = "err" /\ peeked' = wire /\ wire' = <<>>
         /\ op' = [name |-> "peek", ok |-> FALSE, got |-> Len(wire)]
-  /\ UNCHANGED <<nsent, closed, np, delivered, eof, under>>
+  /\ UNCHANGED <<nsent, closed, np, delivered, eof, under, rg, eofd, nglitch>>
 
 Rel(b, avail) == IF b = 0 THEN "zero" ELSE IF b < avail THEN "lt" ELSE IF b = avail THEN "eq" ELSE "gt"
 Cap(avail, b) == IF under = 0 THEN Min(b, avail) ELSE Min(Min(b, avail), under)
 
 Read(b) ==
-  /\ made = "ok"
+  /\ made = "ok" /\ ~eof
   /\ \/ /\ np # PeekSize                          \* replay, never mixed with an underlying read
         /\ LET red == Min(b, PeekSize - np) IN
              /\ delivered' = delivered \o SubSeq(peeked, np + 1, np + red)
              /\ np' = np + red
-             /\ op' = [name |-> "read", b |-> b, n |-> red, from |-> "peeked", eof |-> FALSE,
+             /\ op' = [name |-> "read", b |-> b, n |-> red, from |-> "peeked", eof |-> FALSE, glitch |-> "none",
                        avail |-> PeekSize - np, rel |-> Rel(b, PeekSize - np), left |-> PeekSize - np - red]
-        /\ UNCHANGED <<wire, eof>>
-     \/ /\ np = PeekSize /\ wire # <<>>
-        /\ LET n == Cap(Len(wire), b) IN
-             /\ delivered' = delivered \o SubSeq(wire, 1, n)
-             /\ wire' = SubSeq(wire, n + 1, Len(wire))
-             /\ op' = [name |-> "read", b |-> b, n |-> n, from |-> "conn", eof |-> FALSE,
-                       avail |-> Len(wire), rel |-> Rel(b, Len(wire)), left |-> Len(wire) - n]
-        /\ UNCHANGED <<np, eof>>
+        /\ UNCHANGED <<wire, eof, rg>>
+     \/ /\ np = PeekSize /\ wire # <<>>            \* passed through, with whatever error comes along
+        /\ LET temp == rg = "temperr" /\ b > 0
+               n == IF temp THEN 0 ELSE Cap(Len(wire), b)
+               derr == rg = "dataerr" /\ n > 0
+               last == closed /\ eofd /\ n > 0 /\ n = Len(wire)
+           IN /\ delivered' = delivered \o SubSeq(wire, 1, n)
+              /\ wire' = SubSeq(wire, n + 1, Len(wire))
+              /\ rg' = IF temp \/ derr THEN "none" ELSE rg
+              /\ eof' = last
+              /\ op' = [name |-> "read", b |-> b, n |-> n, from |-> "conn", eof |-> last,
+                        glitch |-> IF temp THEN "temperr" ELSE IF derr THEN "dataerr" ELSE "none",
+                        avail |-> Len(wire), rel |-> Rel(b, Len(wire)), left |-> Len(wire) - n]
+        /\ UNCHANGED <<np>>
      \/ /\ np = PeekSize /\ wire = <<>> /\ closed
         /\ eof' = TRUE
-        /\ op' = [name |-> "read", b |-> b, n |-> 0, from |-> "conn", eof |-> TRUE, avail |-> 0, rel |-> "any", left |-> 0]
-        /\ UNCHANGED <<np, wire, delivered>>
-  /\ UNCHANGED <<nsent, closed, made, peeked, under>>
+        /\ op' = [name |-> "read", b |-> b, n |-> 0, from |-> "conn", eof |-> TRUE, glitch |-> "none", avail |-> 0,
+                  rel |-> "any", left |-> 0]
+        /\ UNCHANGED <<np, wire, delivered, rg>>
+  /\ UNCHANGED <<nsent, closed, made, peeked, under, eofd, nglitch>>
+
+\* a glitch of the underlying connection is armed (one per behaviour; the one-shot kinds once the sample is taken)
+Glitch(kind) ==
+  /\ kind \in Glitches /\ nglitch = 0 /\ ~eof
+  /\ \/ kind \in {"dataerr", "temperr"} /\ made = "ok" /\ rg' = kind /\ eofd' = eofd
+     \/ kind = "eofdata" /\ ~closed /\ eofd' = TRUE /\ rg' = rg
+  /\ nglitch' = 1
+  /\ op' = [name |-> "glitch", kind |-> kind]
+  /\ UNCHANGED <<nsent, wire, closed, made, peeked, np, delivered, eof, under>>
 
 Short(k) == /\ k # under /\ under' = k /\ op' = [name |-> "short", k |-> k]
-            /\ UNCHANGED <<nsent, wire, closed, made, peeked, np, delivered, eof>>
+            /\ UNCHANGED <<nsent, wire, closed, made, peeked, np, delivered, eof, rg, eofd, nglitch>>
 
 Next == \/ \E k \in 1..MaxWrite : Send(k)
         \/ Close \/ Peek
         \/ \E b \in Bufs : Read(b)
         \/ \E k \in Shorts : Short(k)
+        \/ \E kind \in Glitches : Glitch(kind)
 
 TypeOK == np \in 0..PeekSize /\ Len(peeked) <= PeekSize /\ made \in {"no", "ok", "err"}
 Prefix == IsPrefix(delivered, Sent)
